@@ -7,14 +7,15 @@ from harness.runner import BCheck
 from scenario import phasing as PH, vcf as V
 
 LEVEL = "exploration"
-LEVEL_TEXT = ("Bounded stand-in: runtime contracts on whole `whatshap phase` runs over generated multi-sample VCFs - (a) the PS and the HP output of the same "
+LEVEL_TEXT = ("Deductive part (vcgen/z3, all inputs, over the axiomatised pysam model): PhasedVcfWriter._remove_existing_phasing clears HP and PS and every phase bit of the target samples' calls, sorts fully known genotypes (same allele multiset), leaves partially missing / absent genotypes, the calls of non-target samples and the FORMAT keys exactly as they were (contracts/vcf_py.py). "
+              "Bounded stand-in: runtime contracts on whole `whatshap phase` runs over generated multi-sample VCFs - (a) the PS and the HP output of the same "
               "run decode (with WhatsHap's own reader and with an independent decoder) to the same block and haplotype alleles, which are the ones "
               "the solver returned; (b) a phased VCF used as the only phase input is reproduced set by set; (c) re-phasing a file that already "
               "carries PS or HP phase gives exactly the phase statements obtained from the unphased file (all four tag histories), also after "
               "unphase. Deductive obligations for the encoders/decoders are pending (string codec stays undecided in z3/cvc5).")
 LEVEL_NOTE = "Seeded sampling of block structures and histories, not exhaustive. Trusted: independent decoder in scenario/phasing.py."
 TECHNIQUE = "runtime contracts (decode(encode)=id, PS/HP equivalence, history independence) on run_whatshap + VcfReader over generated VCFs; bounded"
-D_MODULES = []
+D_MODULES = ["contracts.vcf_py"]
 EXPLANATION = LEVEL_TEXT
 TRUSTED_BASE = ["independent PS/HP decoder (scenario/phasing.py)"]
 ASSUMPTIONS = ["phase inputs are phased VCFs (pseudo reads), no BAM"]
